@@ -22,13 +22,14 @@ type c31Case struct {
 	hold            time.Duration
 	forever         bool
 	snapshotOnClose bool
+	contender       bool // a second operation keeps grabbing the gate (non-retrying Begin, like Snapshot) when it is free
 }
 
 func TestVerifC31(t *testing.T) {
 	rep := vfNewReport("C31", "real Store.Close(true) on a bootstrapped single-node store while a holder keeps the snapshot gate for {no holder, 0, 2, 30, 120, 400 ms} (thorough: also 1.5, 4, 8 s) or until after Close returned (beyond the limit; once per run); non-trivial when the gate was actually held when Close started")
 	defer rep.Write()
 	cases := []c31Case{{hold: -1}, {hold: 0}, {hold: 2 * time.Millisecond}, {hold: 30 * time.Millisecond, snapshotOnClose: true},
-		{hold: 120 * time.Millisecond}, {hold: 400 * time.Millisecond}, {forever: true}}
+		{hold: 120 * time.Millisecond}, {hold: 400 * time.Millisecond}, {hold: 100 * time.Millisecond, contender: true}, {forever: true}}
 	if vfThorough() {
 		cases = append(cases, c31Case{hold: 1500 * time.Millisecond}, c31Case{hold: 4 * time.Second, snapshotOnClose: true}, c31Case{hold: 8 * time.Second}, c31Case{forever: true, snapshotOnClose: true})
 	}
@@ -87,6 +88,30 @@ func TestVerifC31(t *testing.T) {
 			} else {
 				close(released)
 			}
+			// contender: takes the gate whenever it finds it free (twice, 30 ms each), as a snapshot would
+			contDone := make(chan struct{})
+			var lastContRelease time.Duration = -1
+			if c.contender {
+				go func() {
+					defer close(contDone)
+					got := 0
+					for dl := time.Now().Add(5 * time.Second); got < 2 && time.Now().Before(dl); time.Sleep(500 * time.Microsecond) {
+						if s.snapshotCAS.Owner() == "close" {
+							return
+						}
+						if err := s.snapshotCAS.Begin("verif-contender"); err == nil {
+							got++
+							time.Sleep(30 * time.Millisecond)
+							s.snapshotCAS.End()
+							tmu.Lock()
+							lastContRelease = since()
+							tmu.Unlock()
+						}
+					}
+				}()
+			} else {
+				close(contDone)
+			}
 			// watcher: when does the gate pass to "close"?
 			var acq time.Duration = -1
 			stopWatch := make(chan struct{})
@@ -123,10 +148,15 @@ func TestVerifC31(t *testing.T) {
 				close(releaseNow)
 			}
 			<-released
+			<-contDone
 			tmu.Lock()
 			rb, ra, aq := relBefore, relAfter, acq
+			if c.contender && lastContRelease > ra && (aq < 0 || lastContRelease <= aq) {
+				ra = lastContRelease // the gate became free for good only when the last contender left
+				rb = -1
+			}
 			tmu.Unlock()
-			replay := map[string]interface{}{"holder_ms": float64(c.hold) / 1e6, "holder_until_after_close": c.forever, "snapshot_on_close": c.snapshotOnClose,
+			replay := map[string]interface{}{"holder_ms": float64(c.hold) / 1e6, "holder_until_after_close": c.forever, "snapshot_on_close": c.snapshotOnClose, "competing_contender": c.contender,
 				"close_result": fmt.Sprint(err), "close_started_ms": float64(t0) / 1e6, "close_returned_ms": float64(t1) / 1e6,
 				"holder_released_ms": float64(ra) / 1e6, "gate_passed_to_close_ms": float64(aq) / 1e6}
 			relTok := "0"
